@@ -138,9 +138,14 @@ def enc_sequence(mod, rt, v, ch=ref_ber.CANON):
     pres = {m.name: present(m) for m in rt.members}
     present = lambda m: pres[m.name]
     adds_present = [present(m) for m in adds]
+    # additions of a later version of the type, unknown to the decoder (X.696 16.5): must be skipped
+    unknown = []
+    if rt.ext and ch.pick("oer-unknown-ext", 4) == 1:
+        for i in range(1 + ch.pick("oer-unknown-ext-count", 3)):
+            unknown.append(bytes((0xA0 + 17 * i + j) & 0xff for j in range(ch.pick("oer-unknown-ext-len", 5))))
     bits = []
     if rt.ext:
-        bits.append(1 if any(adds_present) else 0)
+        bits.append(1 if any(adds_present) or unknown else 0)
     for m in root:
         if m.optional or m.has_default:
             bits.append(1 if present(m) else 0)
@@ -156,11 +161,11 @@ def enc_sequence(mod, rt, v, ch=ref_ber.CANON):
         if (m.optional or m.has_default) and not present(m):
             continue
         out += enc(mod, m.type, v[m.name], ch)
-    if rt.ext and any(adds_present):
-        n = len(adds)
+    if rt.ext and (any(adds_present) or unknown):
+        n = len(adds) + len(unknown)
         nbytes = (n + 7) // 8
         val = 0
-        for p in adds_present:
+        for p in adds_present + [True] * len(unknown):
             val = (val << 1) | (1 if p else 0)
         val <<= nbytes * 8 - n
         out += length_det(1 + nbytes, ch) + bytes([nbytes * 8 - n]) + val.to_bytes(nbytes, "big")
@@ -168,6 +173,8 @@ def enc_sequence(mod, rt, v, ch=ref_ber.CANON):
             if p:
                 b = enc(mod, m.type, v[m.name], ch)
                 out += length_det(len(b), ch) + b
+        for b in unknown:
+            out += length_det(len(b), ch) + b
     return out
 
 
